@@ -166,6 +166,80 @@ Proof.
         rewrite F. cbn [length Nat.min Nat.ltb Nat.leb]. rewrite Hv. reflexivity.
 Qed.
 
+(* the shape of a name that is exactly one character: as long as its lead byte says, and no `=` after the lead byte *)
+Lemma one_char_shape (n : bytes) (ch : char) :
+  utf8_decode n = Some [ch] ->
+  exists b0 t, n = b0 :: t /\ length n = utf8_first_len b0 /\ no_eq t.
+Proof.
+  destruct n as [|b0 t0]; [discriminate|]. intros Hu. exists b0, t0. split; [reflexivity|].
+  cbn [utf8_decode] in Hu.
+  destruct (b0 <? 128)%N eqn:A1.
+  - destruct (utf8_decode t0) as [l|] eqn:E; [|discriminate]. cbn [option_map] in Hu. injection Hu as _ Hl. subst l.
+    apply utf8_decode_nil in E. subst t0. rewrite (first_len_ascii b0 A1). split; [reflexivity|]. intros b [].
+  - destruct ((194 <=? b0)%N && (b0 <=? 223)%N) eqn:A2.
+    + destruct t0 as [|b1 t1]; [discriminate|]. destruct (is_cont b1) eqn:C1; [|discriminate].
+      destruct (utf8_decode t1) as [l|] eqn:E; [|discriminate]. cbn [option_map] in Hu. injection Hu as _ Hl. subst l.
+      apply utf8_decode_nil in E. subst t1.
+      apply andb_prop in A2. destruct A2 as [L1 L2]. apply N.leb_le in L1. apply N.leb_le in L2.
+      split.
+      * unfold utf8_first_len. assert (X1 : (b0 <? 192)%N = false) by (apply N.ltb_ge; lia).
+        assert (X2 : (b0 <? 224)%N = true) by (apply N.ltb_lt; lia). rewrite X1, X2. reflexivity.
+      * intros b [<-|[]]. apply cont_not_eq. exact C1.
+    + destruct ((224 <=? b0)%N && (b0 <=? 239)%N) eqn:A3.
+      * destruct t0 as [|b1 [|b2 t2]]; try discriminate.
+        match type of Hu with (if ?c then _ else _) = _ => destruct c eqn:C end; [|discriminate].
+        destruct (utf8_decode t2) as [l|] eqn:E; [|discriminate]. cbn [option_map] in Hu. injection Hu as _ Hl. subst l.
+        apply utf8_decode_nil in E. subst t2.
+        apply andb_prop in C. destruct C as [C C2]. apply andb_prop in C. destruct C as [Clo _].
+        apply andb_prop in A3. destruct A3 as [L1 L2]. apply N.leb_le in L1. apply N.leb_le in L2.
+        split.
+        -- unfold utf8_first_len. assert (X1 : (b0 <? 192)%N = false) by (apply N.ltb_ge; lia).
+           assert (X2 : (b0 <? 224)%N = false) by (apply N.ltb_ge; lia).
+           assert (X3 : (b0 <? 240)%N = true) by (apply N.ltb_lt; lia). rewrite X1, X2, X3. reflexivity.
+        -- intros b [<-|[<-|[]]]; [|apply cont_not_eq; exact C2].
+           eapply ge_not_eq; [exact Clo|]. destruct (b0 =? 224)%N; lia.
+      * destruct ((240 <=? b0)%N && (b0 <=? 244)%N) eqn:A4; [|discriminate].
+        destruct t0 as [|b1 [|b2 [|b3 t3]]]; try discriminate.
+        match type of Hu with (if ?c then _ else _) = _ => destruct c eqn:C end; [|discriminate].
+        destruct (utf8_decode t3) as [l|] eqn:E; [|discriminate]. cbn [option_map] in Hu. injection Hu as _ Hl. subst l.
+        apply utf8_decode_nil in E. subst t3.
+        apply andb_prop in C. destruct C as [C C3]. apply andb_prop in C. destruct C as [C C2].
+        apply andb_prop in C. destruct C as [Clo _].
+        apply andb_prop in A4. destruct A4 as [L1 L2]. apply N.leb_le in L1. apply N.leb_le in L2.
+        split.
+        -- unfold utf8_first_len. assert (X1 : (b0 <? 192)%N = false) by (apply N.ltb_ge; lia).
+           assert (X2 : (b0 <? 224)%N = false) by (apply N.ltb_ge; lia).
+           assert (X3 : (b0 <? 240)%N = false) by (apply N.ltb_ge; lia). rewrite X1, X2, X3. reflexivity.
+        -- intros b [<-|[<-|[<-|[]]]]; [|apply cont_not_eq; exact C2|apply cont_not_eq; exact C3].
+           eapply ge_not_eq; [exact Clo|]. destruct (b0 =? 240)%N; lia.
+Qed.
+
+(* -Xvalue=more for a name X of any character: everything after the CHARACTER is the value, `=` included *)
+Theorem split_short_adj_eq_char (n v1 v2 : bytes) (ch : char) :
+  utf8_decode n = Some [ch] -> (hd 0%N n =? c_dash)%N = false -> no_eq v1 -> v1 <> [] ->
+  split_os_argument (c_dash :: n ++ v1 ++ c_eq :: v2) = Some (ATShort, n, Some (v1 ++ c_eq :: v2)).
+Proof.
+  intros Hu Hd Hn Hne.
+  assert (Hv : str_ok n = true) by (unfold str_ok, utf8_valid; rewrite Hu; reflexivity).
+  destruct (one_char_shape n ch Hu) as (b0 & t & -> & Hl & Ht). cbn [hd] in Hd.
+  unfold split_os_argument. cbn [app]. change (negb (c_dash =? c_dash)%N) with false. cbn [negb]. rewrite Hd.
+  rewrite app_assoc. rewrite split_first_app.
+  2:{ intros b Hb. apply in_app_or in Hb. destruct Hb; auto. }
+  cbn [length] in Hl.
+  assert (Hlen : length (b0 :: t ++ v1) = utf8_first_len b0 + length v1) by (cbn [length]; rewrite app_length; lia).
+  assert (Hpos : 1 <= length v1) by (destruct v1; [congruence|cbn; lia]).
+  rewrite Hlen. rewrite Nat.min_l by lia.
+  assert (Hlt : Nat.ltb (utf8_first_len b0) (utf8_first_len b0 + length v1) = true) by (apply Nat.ltb_lt; lia).
+  rewrite Hlt.
+  assert (F : firstn (utf8_first_len b0) (b0 :: t ++ v1) = b0 :: t).
+  { rewrite <- Hl. change (b0 :: t ++ v1) with ((b0 :: t) ++ v1). change (S (length t)) with (length (b0 :: t)).
+    rewrite firstn_app, Nat.sub_diag, firstn_all. cbn [firstn]. apply app_nil_r. }
+  assert (K : skipn (utf8_first_len b0) (b0 :: t ++ v1) = v1).
+  { rewrite <- Hl. change (b0 :: t ++ v1) with ((b0 :: t) ++ v1). change (S (length t)) with (length (b0 :: t)).
+    rewrite skipn_app, Nat.sub_diag, skipn_all. reflexivity. }
+  rewrite F, K, Hv. reflexivity.
+Qed.
+
 (* the former witness of the defect: `-ж=1` *)
 Example split_short_eq_cyrillic :
   split_os_argument [45; 208; 182; 61; 49]%N = Some (ATShort, [208; 182]%N, Some [49%N]).
